@@ -175,11 +175,12 @@ Fixpoint replay3_ok (mgcheck : bool) (lut : N) (d : dp3) (xs : list xwrite) : bo
 Inductive op :=
 | OApply (st : state) (v : visit) (failF : list fkey) (failB : list bkey)
          (trace : list xwrite) (err : bool) (fe_after : femap) (be_after : bemap) (mg : mgobs)
+         (tabs : list (list bval * list bval)) (mg_after : bemap)
 | ORestart.
 
 (* k_mgcheck = false: the maglev mid-update part of the oracle is off (the driver emits such a copy of a history in
    which it saw that part fail, so that the rest of the oracle is still applied to it) *)
-Record case := Case { k_npips : list N; k_reset : bool; k_lut : N; k_mgcheck : bool; k_ops : list op }.
+Record case := Case { k_npips : list N; k_reset : bool; k_mgfix : bool; k_lut : N; k_mgcheck : bool; k_ops : list op }.
 
 Definition femap_eqb (a b : femap) : bool :=
   forallb (fun kv => match lookup fkey_eqb b (fst kv) with Some v => fval_eqb v (snd kv) | None => false end) a
@@ -194,7 +195,7 @@ Fixpoint model_agrees (cfg : config) (sy : syncer) (d : dp) (ops : list op) : bo
   match ops with
   | [] => true
   | ORestart :: t => model_agrees cfg new_syncer d t
-  | OApply st v fF fB tr err fe be _ :: t =>
+  | OApply st v fF fB tr err fe be _ _ _ :: t =>
       match exec_apply cfg sy d st v fF fB (core_writes tr) with
       | None => false
       | Some (sy', d', err') =>
@@ -209,13 +210,13 @@ Fixpoint oracle (mgcheck : bool) (npips : list N) (lut : N) (d : dp3) (ops : lis
   match ops with
   | [] => true
   | ORestart :: t => oracle mgcheck npips lut d t
-  | OApply st _ _ _ tr err fe be mg :: t =>
+  | OApply st _ _ _ tr err fe be mg _ mga :: t =>
       let d' := do_xwrites d tr in
       replay3_ok mgcheck lut d tr
-      && femap_eqb (fst (fst d')) fe && bemap_eqb (snd (fst d')) be       (* the recorder saw every write *)
+      && femap_eqb (fst (fst d')) fe && bemap_eqb (snd (fst d')) be && bemap_eqb (snd d') mga   (* the recorder saw every write *)
       && (err || negb (state_wf npips st)
           || (final_exactb npips st fe be && maglev_okb lut npips st fe mg))
-      && oracle mgcheck npips lut ((fe, be), snd d') t
+      && oracle mgcheck npips lut ((fe, be), mga) t
   end.
 
 Definition check_case (c : case) : bool * bool :=
